@@ -399,7 +399,7 @@ def _simple_glyph(name, n, integer):
     pts = []
     for i in range(n):
         if integer:
-            pts.append((V.int('%s_x%d' % (name, i), -3000, 3000), V.int('%s_y%d' % (name, i), -3000, 3000)))
+            pts.append((V.int('%s_x%d' % (name, i), -3000, 3000, bv=False), V.int('%s_y%d' % (name, i), -3000, 3000, bv=False)))
         else:
             pts.append((V.real('%s_x%d' % (name, i), -3000, 3000), V.real('%s_y%d' % (name, i), -3000, 3000)))
     g = GL.Glyph()
@@ -433,6 +433,43 @@ def glyph_bounds(n):
     ob('yMin', _is_rounded_min(g.yMin, ys, 1))
     ob('xMax', _is_rounded_min(g.xMax, xs, -1))
     ob('yMax', _is_rounded_min(g.yMax, ys, -1))
+
+
+@kernel('C04', funcs=['ttLib/tables/_g_l_y_f.py:Glyph.recalcBounds', 'ttLib/tables/_g_l_y_f.py:Glyph.tryRecalcBoundsComposite', 'ttLib/tables/_g_l_y_f.py:GlyphComponent._hasOnlyIntegerTranslate',
+                      'ttLib/tables/_g_l_y_f.py:GlyphCoordinates.calcIntBounds'],
+        bounds='composite glyph of 2 untransformed components with symbolic integer offsets in [-2000, 2000], each component a simple glyph of 2 points with symbolic integer '
+               'coordinates in [-3000, 3000] or (per pattern) a glyph without contours; a component whose points all coincide is assumed away (fontTools treats a '
+               'degenerate box as "empty component", stated as outside the claim): the composite\'s xMin/yMin/xMax/yMax are the min/max over the translated points of '
+               'all components with contours - in particular a component that is flat in one direction only (a hairline) still counts',
+        shims=['array("d") over reals'], quick=[dict(pat='ss')], thorough=[dict(pat=p) for p in ('ss', 'se', 'es')])
+def composite_bounds(pat):
+    table = {}
+    allx, ally = [], []
+    comp = GL.Glyph()
+    comp.numberOfContours = -1
+    comp.components = []
+    for i, kind in enumerate(pat):
+        nm = 'c%d' % i
+        if kind == 's':
+            g, pts = _simple_glyph(nm, 2, True)
+            assume(disj([neg(eq(pts[0][0], pts[1][0])), neg(eq(pts[0][1], pts[1][1]))]))
+        else:
+            g, pts = GL.Glyph(), []
+            g.numberOfContours = 0
+        table[nm] = g
+        c = GL.GlyphComponent()
+        c.glyphName = nm
+        c.x, c.y = V.int('dx%d' % i, -2000, 2000, bv=False), V.int('dy%d' % i, -2000, 2000, bv=False)
+        c.flags = 0
+        comp.components.append(c)
+        allx += [p[0] + c.x for p in pts]
+        ally += [p[1] + c.y for p in pts]
+    comp.recalcBounds(table)
+    observe('bbox', [comp.xMin, comp.yMin, comp.xMax, comp.yMax])
+    ob('xMin', _minof(comp.xMin, allx, 1))
+    ob('yMin', _minof(comp.yMin, ally, 1))
+    ob('xMax', _minof(comp.xMax, allx, -1))
+    ob('yMax', _minof(comp.yMax, ally, -1))
 
 
 def _minof(k, vals, sign=1):
